@@ -12,7 +12,7 @@
 (* An element slot the implementation left empty is reported by the        *)
 (* harness as [t |-> "absent"]; it is not a value and never decodes.       *)
 (***************************************************************************)
-EXTENDS Naturals, Sequences, FiniteSets
+EXTENDS Integers, Sequences, FiniteSets
 
 CR     == 13
 LF     == 10
@@ -25,7 +25,7 @@ STAR   == 42
 
 Str(p)  == [t |-> "str", p |-> p]
 Err(p)  == [t |-> "err", p |-> p]
-Int(p)  == [t |-> "int", p |-> p]
+IntV(p)  == [t |-> "int", p |-> p]
 Bulk(p) == [t |-> "bulk", p |-> p]
 Null    == [t |-> "null"]
 Arr(e)  == [t |-> "arr", e |-> e]
@@ -78,8 +78,8 @@ Enc(v) ==
 
 ---------------------------------------------------------------------------
 (* Strict decoder.  Dec(b, i) decodes one value starting at index i.       *)
-Ok(v, n)   == [ok |-> TRUE, v |-> v, next |-> n]
-Fail(w, i) == [ok |-> FALSE, why |-> w, at |-> i]   \* why: "trunc" | "bad" | "huge"
+DOk(v, n)   == [ok |-> TRUE, v |-> v, next |-> n]
+DFail(w, i) == [ok |-> FALSE, why |-> w, at |-> i]   \* why: "trunc" | "bad" | "huge"
 
 RECURSIVE ScanLine(_, _)
 ScanLine(b, i) == IF i > Len(b) THEN i
@@ -88,45 +88,45 @@ ScanLine(b, i) == IF i > Len(b) THEN i
 \* payload starting at i, terminated by CRLF; no bare CR or LF inside
 DecLine(b, i) ==
   LET j == ScanLine(b, i) IN
-  IF j > Len(b) THEN Fail("trunc", j)
-  ELSE IF b[j] = LF THEN Fail("bad", j)
-  ELSE IF j + 1 > Len(b) THEN Fail("trunc", j + 1)
-  ELSE IF b[j + 1] # LF THEN Fail("bad", j + 1)
-  ELSE Ok(SubSeq(b, i, j - 1), j + 2)
+  IF j > Len(b) THEN DFail("trunc", j)
+  ELSE IF b[j] = LF THEN DFail("bad", j)
+  ELSE IF j + 1 > Len(b) THEN DFail("trunc", j + 1)
+  ELSE IF b[j + 1] # LF THEN DFail("bad", j + 1)
+  ELSE DOk(SubSeq(b, i, j - 1), j + 2)
 
 RECURSIVE Dec(_, _)
 RECURSIVE DecElems(_, _, _, _)
 
 Dec(b, i) ==
-  IF i > Len(b) THEN Fail("trunc", i)
+  IF i > Len(b) THEN DFail("trunc", i)
   ELSE LET ty == b[i] IN
     IF ty \in {PLUS, MINUS, COLON} THEN
       LET r == DecLine(b, i + 1) IN
       IF ~r.ok THEN r
-      ELSE IF ty = COLON /\ ~CanonInt(r.v) THEN Fail("bad", i + 1)
-      ELSE Ok([t |-> IF ty = PLUS THEN "str" ELSE IF ty = MINUS THEN "err" ELSE "int",
+      ELSE IF ty = COLON /\ ~CanonInt(r.v) THEN DFail("bad", i + 1)
+      ELSE DOk([t |-> IF ty = PLUS THEN "str" ELSE IF ty = MINUS THEN "err" ELSE "int",
                p |-> r.v], r.next)
     ELSE IF ty = DOLLAR THEN
       LET r == DecLine(b, i + 1) IN
       IF ~r.ok THEN r
-      ELSE IF r.v = <<MINUS, 49>> THEN Ok(Null, r.next)
-      ELSE IF ~CanonNat(r.v) THEN Fail("bad", i + 1)
-      ELSE IF Len(r.v) > 9 THEN Fail("huge", i + 1)
+      ELSE IF r.v = <<MINUS, 49>> THEN DOk(Null, r.next)
+      ELSE IF ~CanonNat(r.v) THEN DFail("bad", i + 1)
+      ELSE IF Len(r.v) > 9 THEN DFail("huge", i + 1)
       ELSE LET n == ParseNat(r.v)
                e == r.next + n IN          \* index of the closing CR
-           IF e + 1 > Len(b) THEN Fail("trunc", Len(b) + 1)
-           ELSE IF b[e] # CR \/ b[e + 1] # LF THEN Fail("bad", e)
-           ELSE Ok(Bulk(SubSeq(b, r.next, e - 1)), e + 2)
+           IF e + 1 > Len(b) THEN DFail("trunc", Len(b) + 1)
+           ELSE IF b[e] # CR \/ b[e + 1] # LF THEN DFail("bad", e)
+           ELSE DOk(Bulk(SubSeq(b, r.next, e - 1)), e + 2)
     ELSE IF ty = STAR THEN
       LET r == DecLine(b, i + 1) IN
       IF ~r.ok THEN r
-      ELSE IF ~CanonNat(r.v) THEN Fail("bad", i + 1)
-      ELSE IF Len(r.v) > 9 THEN Fail("huge", i + 1)
+      ELSE IF ~CanonNat(r.v) THEN DFail("bad", i + 1)
+      ELSE IF Len(r.v) > 9 THEN DFail("huge", i + 1)
       ELSE DecElems(b, r.next, ParseNat(r.v), <<>>)
-    ELSE Fail("bad", i)
+    ELSE DFail("bad", i)
 
 DecElems(b, i, n, acc) ==
-  IF n = 0 THEN Ok(Arr(acc), i)
+  IF n = 0 THEN DOk(Arr(acc), i)
   ELSE LET r == Dec(b, i) IN
        IF ~r.ok THEN r ELSE DecElems(b, r.next, n - 1, Append(acc, r.v))
 
